@@ -173,6 +173,19 @@ def r4_designated_target(idx, r):
                   msg=f"the designated target is only used when {others} - a flag-based default (e.g. clad for plenum blocks) is consulted first and overrides what the block designates")
 
 
+def r7_target_always_registered(idx, r):
+    """determineTargetComponent both picks the target and REGISTERS it (_setExpansionTarget): every way of leaving it
+    normally must have registered a component, or the block has no target and its height is frozen while its solids grow."""
+    f = idx.method(AXM + ".expansionData.ExpansionData", "determineTargetComponent")
+    if f is None:
+        raise AnchorMissing("ExpansionData.determineTargetComponent")
+    fl = Flow(f.node, lambda n: ["registered"] if isinstance(n, ast.Call) and call_attr(n) == "_setExpansionTarget" else []).run()
+    bad = [e for e in fl.normal_exits() if e.state.get("registered", (0, 0))[0] < 1]
+    r.require(not bad, "determineTargetComponent:registers-on-every-path", f, node=bad[0].node if bad and bad[0].node is not None else f.node,
+              msg="a path returns a component without registering it as the block's target (e.g. the single-solid fallback): the block then has no designated target, "
+                  "its boundary does not move with any component and target mass is not conserved")
+
+
 def r5_fresh_state_per_assembly(idx, r):
     """Prescribed expansions are applied through one changer object, assembly after assembly and step after step:
     setAssembly rebuilds the axial linkage and the expansion data on EVERY call, or factors of an earlier step survive
@@ -219,3 +232,5 @@ def run(idx, chk):
     chk.run_rule("R12.5", "setAssembly rebuilds linkage and expansion data on every call", lambda r: r5_fresh_state_per_assembly(idx, r), floor=2, necessary="'expanding and then applying the inverse change restores heights, densities and masses'")
     chk.run_rule("R12.6", "optional temperatures of the expansion-factor functions are compared with None, never evaluated for truth", lambda r: r6_none_tests(idx, r), floor=5,
                  necessary="'by any temperature field': a reference temperature of exactly 0 C is a temperature")
+    chk.run_rule("R12.7", "determineTargetComponent registers the component it picks on every path", lambda r: r7_target_always_registered(idx, r), floor=1,
+                 necessary="'moves each block boundary with its designated target component'")
